@@ -192,9 +192,14 @@ impl Builder {
                         .attrs
                         .iter()
                         .any(|(k, v)| k == "shadowrootmode" && (v.eq_ignore_ascii_case("open") || v.eq_ignore_ascii_case("closed")));
-                    if mode_set && self.dsd_allow && self.open.len() > 1 && self.dsd_succeed {
+                    let host = *self.open.last().unwrap();
+                    // the sink's answer (ModelDom AllowSucceed): a valid shadow host without a shadow root
+                    let host_ok = match &self.dom.nodes[host].kind {
+                        crate::refimpl::dom::RKind::Element { ns, local, .. } => crate::sinks::model::valid_shadow_host(ns, local),
+                        _ => false,
+                    } && self.dom.nodes[host].shadow.is_empty();
+                    if mode_set && self.dsd_allow && self.open.len() > 1 && self.dsd_succeed && host_ok {
                         self.count("declarative shadow root attached");
-                        let host = *self.open.last().unwrap();
                         // the template element is created and pushed, but never inserted; its
                         // contents are the host's shadow root
                         let e = self.dom.new_element(HTML, &t.name, Self::html_attrs(t), t.dup);
